@@ -13,11 +13,14 @@ class Proj:
         self.quantum = quantum
 
     # ---- tolerances (DESIGN 4.2) -------------------------------------------------------------------------
-    def tol(self, expected, k=1):
-        return 1e-6 * abs(expected) + 100 * self.quantum * max(k, 1)
+    def tol(self, expected, k=1, scale=0.0):
+        """scale: storage units per model unit of the compared quantity; amounts of ~100 model units are subtracted
+        from one another, so differences carry double-precision noise of ~1e-14 * 100 * scale whatever the
+        library's rounding quantum is (it matters for nL / nmol storage, where values reach 1e11)."""
+        return 1e-6 * abs(expected) + 100 * self.quantum * max(k, 1) + 2e-12 * scale
 
-    def close(self, x, expected, k=1):
-        return abs(x - expected) <= self.tol(expected, k)
+    def close(self, x, expected, k=1, scale=0.0):
+        return abs(x - expected) <= self.tol(expected, k, scale)
 
     # ---- projection --------------------------------------------------------------------------------------
     def contents(self, container):
@@ -58,14 +61,14 @@ class Proj:
         for s, x in spec_well["c"].items():
             e = self.exp_amount(s, x)
             got = w["c"].get(s, 0.0)
-            if not self.close(got, e, k):
+            if not self.close(got, e, k, float(self.inst.amount_store_scale(s))):
                 return f"amount[{s}] = {got!r}, specified {e!r}"
         for s in w["c"]:
             if s not in spec_well["c"] and abs(w["c"][s]) > self.tol(0, k):
                 return f"amount[{s}] = {w['c'][s]!r}, specified absent"
         if check_vol:
             e = self.exp_vol(spec_well["vol"])
-            if not self.close(w["vol"], e, k):
+            if not self.close(w["vol"], e, k, float(self.inst.vol_store_scale())):
                 return f"volume = {w['vol']!r}, specified {e!r}"
         return None
 
@@ -88,7 +91,7 @@ class Proj:
     # ---- validity of a returned object (C03a) -----------------------------------------------------------
     def invalid(self, obj, k=1):
         for i, c in enumerate(self.wells_of(obj)):
-            t = self.tol(0, k)
+            t = self.tol(0, k, float(max(self.inst.amount_store_scale("W"), self.inst.vol_store_scale())))
             for sub, amt in c.contents.items():
                 if not (amt >= -t) or math.isnan(amt):
                     return f"well {i + 1} holds {amt!r} of {sub.name}"
